@@ -101,22 +101,26 @@ def site(name, params, src, fname, fn, pattern, env, pre=None, default=None, wra
         untied.append((name, str(e)))
         sites.append({'name': name, 'file': fname, 'fn': fn, 'line': line, 'rust': text, 'coq': default, 'untied': str(e)})
         defs.append("(* UNTIED %s: %s *)\nDefinition %s %s := %s." % (name, e, name, params, default))
-venv = {'block.round':'b_round','self.last_voted_round':'last_voted','block.qc.round':'b_qc_round','tc.round':'tc_round','MAXHQ':'max_hq'}
-site('g_safety_rule_1','(b_round last_voted : N) : bool',core,'core.rs','make_vote',r'let\s+safety_rule_1\s*=\s*(.*?);',venv,default='(last_voted <? b_round)')
-site('g_safety_rule_2','(b_qc_round b_round : N) : bool',core,'core.rs','make_vote',r'let\s+mut\s+safety_rule_2\s*=\s*(.*?);',venv,default='((b_qc_round + 1) =? b_round)')
-site('g_can_extend','(tc_round b_round : N) : bool',core,'core.rs','make_vote',r'let\s+mut\s+can_extend\s*=\s*(.*?);',venv,default='((tc_round + 1) =? b_round)')
-site('g_can_extend_hq','(b_qc_round max_hq : N) : bool',core,'core.rs','make_vote',r'can_extend\s*&=\s*(.*?);',venv,
+STENV = {'self.round':'st_round','self.high_qc.round':'st_hq','self.last_voted_round':'st_lv','self.last_committed_round':'st_lc'}
+def E(d):
+    x = dict(STENV); x.update(d); return x
+venv = E({'block.round':'b_round','block.qc.round':'b_qc_round','tc.round':'tc_round','MAXHQ':'max_hq'})
+VP = '(b_round b_qc_round tc_round max_hq : N) (st_round st_hq st_lv st_lc : N) : bool'
+site('g_safety_rule_1',VP,core,'core.rs','make_vote',r'let\s+safety_rule_1\s*=\s*(.*?);',venv,default='(st_lv <? b_round)')
+site('g_safety_rule_2',VP,core,'core.rs','make_vote',r'let\s+mut\s+safety_rule_2\s*=\s*(.*?);',venv,default='((b_qc_round + 1) =? b_round)')
+site('g_can_extend',VP,core,'core.rs','make_vote',r'let\s+mut\s+can_extend\s*=\s*(.*?);',venv,default='((tc_round + 1) =? b_round)')
+site('g_can_extend_hq',VP,core,'core.rs','make_vote',r'can_extend\s*&=\s*(.*?);',venv,
      pre=lambda t: re.sub(r'\*?tc\.high_qc_rounds\(\)\.iter\(\)\.max\(\)\.expect\("[^"]*"\)','MAXHQ',t),default='(max_hq <=? b_qc_round)')
-site('g_commit_skip','(lcr b_round : N) : bool',core,'core.rs','commit',r'if\s+(self\.last_committed_round\s*>=\s*block\.round)\s*\{',{'self.last_committed_round':'lcr','block.round':'b_round'},default='(b_round <=? lcr)')
+site('g_commit_skip','(b_round : N) (st_round st_hq st_lv st_lc : N) : bool',core,'core.rs','commit',r'if\s+([^{}]*?)\s*\{\s*return\s+Ok',E({'block.round':'b_round'}),default='(b_round <=? st_lc)')
 site('g_commit_walk','(lcr p_round : N) : bool',core,'core.rs','commit',r'while\s+(.*?)\s*\{',{'self.last_committed_round':'lcr','parent.round':'p_round'},default='((lcr + 1) <? p_round)')
-site('g_update_high_qc','(q_round hq_round : N) : bool',core,'core.rs','update_high_qc',r'if\s+(.*?)\s*\{',{'qc.round':'q_round','self.high_qc.round':'hq_round'},default='(hq_round <? q_round)')
-site('g_vote_stale','(m_round round : N) : bool',core,'core.rs','handle_vote',r'if\s+(vote\.round.*?)\s*\{',{'vote.round':'m_round','self.round':'round'},default='(m_round <? round)')
-site('g_timeout_stale','(m_round round : N) : bool',core,'core.rs','handle_timeout',r'if\s+(timeout\.round.*?)\s*\{',{'timeout.round':'m_round','self.round':'round'},default='(m_round <? round)')
-site('g_tc_stale','(m_round round : N) : bool',core,'core.rs','handle_tc',r'if\s+(tc\.round.*?)\s*\{',{'tc.round':'m_round','self.round':'round'},default='(m_round <? round)')
-site('g_advance_guard','(r round : N) : bool',core,'core.rs','advance_round',r'if\s+(.*?)\s*\{',{'round':'r','self.round':'round'},default='(r <? round)')
-site('g_advance_next','(r : N) : N',core,'core.rs','advance_round',r'self\.round\s*=\s*(.*?);',{'round':'r'},default='(r + 1)')
-site('g_two_chain','(b0_round b1_round : N) : bool',core,'core.rs','process_block',r'if\s+(b0\.round.*?)\s*\{',{'b0.round':'b0_round','b1.round':'b1_round'},default='((b0_round + 1) =? b1_round)')
-site('g_round_gate','(b_round round : N) : bool',core,'core.rs','process_block',r'if\s+(block\.round\s*!=.*?)\s*\{',{'block.round':'b_round','self.round':'round'},default='(negb (b_round =? round))')
+site('g_update_high_qc','(q_round : N) (st_round st_hq st_lv st_lc : N) : bool',core,'core.rs','update_high_qc',r'if\s+(.*?)\s*\{',E({'qc.round':'q_round'}),default='(st_hq <? q_round)')
+site('g_vote_stale','(m_round : N) (st_round st_hq st_lv st_lc : N) : bool',core,'core.rs','handle_vote',r'if\s+([^{}]*?)\s*\{\s*return\s+Ok',E({'vote.round':'m_round'}),default='(m_round <? st_round)')
+site('g_timeout_stale','(m_round : N) (st_round st_hq st_lv st_lc : N) : bool',core,'core.rs','handle_timeout',r'if\s+([^{}]*?)\s*\{\s*return\s+Ok',E({'timeout.round':'m_round'}),default='(m_round <? st_round)')
+site('g_tc_stale','(m_round : N) (st_round st_hq st_lv st_lc : N) : bool',core,'core.rs','handle_tc',r'if\s+([^{}]*?)\s*\{\s*return\s+Ok',E({'tc.round':'m_round'}),default='(m_round <? st_round)')
+site('g_advance_guard','(r : N) (st_round st_hq st_lv st_lc : N) : bool',core,'core.rs','advance_round',r'if\s+(.*?)\s*\{',E({'round':'r'}),default='(r <? st_round)')
+site('g_advance_next','(r : N) (st_round st_hq st_lv st_lc : N) : N',core,'core.rs','advance_round',r'self\.round\s*=\s*(.*?);',E({'round':'r'}),default='(r + 1)')
+site('g_two_chain','(b0_round b1_round b_round : N) : bool',core,'core.rs','process_block',r'if\s+([^{}]*?)\s*\{\s*self\.mempool_driver\.cleanup',{'b0.round':'b0_round','b1.round':'b1_round','block.round':'b_round'},default='((b0_round + 1) =? b1_round)')
+site('g_round_gate','(b_round b_qc_round : N) (st_round st_hq st_lv st_lc : N) : bool',core,'core.rs','process_block',r'if\s+([^{}]*?)\s*\{\s*return\s+Ok\(\(\)\);\s*\}\s*(?://[^\n]*\n\s*)*if\s+let\s+Some\(vote\)',E({'block.round':'b_round','block.qc.round':'b_qc_round'}),default='(negb (b_round =? st_round))')
 site('g_quorum_consensus','(total : N) : N',cfg,'consensus/config.rs','quorum_threshold',r';\s*([^;]*?)\s*$',{'total_votes':'total'},default='(((2 * total) / 3) + 1)')
 site('g_quorum_mempool','(total : N) : N',mcfg,'mempool/config.rs','quorum_threshold',r';\s*([^;]*?)\s*$',{'total_votes':'total'},default='(((2 * total) / 3) + 1)')
 
